@@ -96,6 +96,7 @@ def parseOp? : List String → Option Op
   | ["add", d, p, k, v, u, l] => do
     let v ← parseRef? v
     pure (.add (← d.toNat?) (← parsePath? p) (← parseKind? k) (← v) (parseOptStr u) (← l.toNat?))
+  | ["addcoll", d, p, l] => do pure (.addColl (← d.toNat?) (← parsePath? p) (← l.toNat?))
   | ["del", d, p] => do pure (.del (← d.toNat?) (← parsePath? p))
   | ["subset", d, i] => do pure (.subset (← d.toNat?) (← parseIndex? i))
   | ["extend", d, e] => do pure (.extend (← d.toNat?) (← e.toNat?))
